@@ -109,16 +109,16 @@ func (d netDesc) tla() map[string]any {
 // A chainDesc describes one chain: either a TLC skeleton (explicit timestamps and medians chosen
 // by the model) or a seeded random chain under a timestamp regime.
 type chainDesc struct {
-	Kind   string  `json:"kind"` // "skeleton" | "random" | "mag"
-	Net    netDesc `json:"net"`
-	TS     []int   `json:"ts,omitempty"` // skeleton: timestamp of header i (seconds since genesis)
-	M2     []int   `json:"m2,omitempty"` // skeleton: twice the median the model validated it against
-	Choice []int   `json:"choice,omitempty"`
-	Regime int     `json:"regime,omitempty"`
-	Seed   int64   `json:"seed,omitempty"`
-	Steps  int     `json:"steps"`
-	Thin   int     `json:"thin,omitempty"` // random: 0 = log every step; k = log windows (see keep)
-	Mag    *magInit `json:"mag,omitempty"` // mag: the constructed state the chain starts from; Regime = timestamp choice of every header
+	Kind   string   `json:"kind"` // "skeleton" | "random" | "mag"
+	Net    netDesc  `json:"net"`
+	TS     []int    `json:"ts,omitempty"` // skeleton: timestamp of header i (seconds since genesis)
+	M2     []int    `json:"m2,omitempty"` // skeleton: twice the median the model validated it against
+	Choice []int    `json:"choice,omitempty"`
+	Regime int      `json:"regime,omitempty"`
+	Seed   int64    `json:"seed,omitempty"`
+	Steps  int      `json:"steps"`
+	Thin   int      `json:"thin,omitempty"` // random: 0 = log every step; k = log windows (see keep)
+	Mag    *magInit `json:"mag,omitempty"`  // mag: the constructed state the chain starts from; Regime = timestamp choice of every header
 }
 
 // ---------------------------------------------------------------------------
@@ -378,7 +378,9 @@ func (d chainDesc) run(chainID int, upto int) *chainRun {
 	if d.Kind == "mag" {
 		d.Mag.network(n)
 	}
-	if p, v := vlib.Recover(func() { cs, _ = consensus.ApplyBlock(n.GenesisState(), genesis, consensus.V1BlockSupplement{}, time.Time{}) }); p {
+	if p, v := vlib.Recover(func() {
+		cs, _ = consensus.ApplyBlock(n.GenesisState(), genesis, consensus.V1BlockSupplement{}, time.Time{})
+	}); p {
 		stub, _ := logState(consensus.State{Network: n})
 		out.add(map[string]any{"ev": "reset", "chain": chainID, "i": 0, "cont": false, "net": d.Net.tla(), "s": stub, "panic": fmt.Sprintf("ApplyBlock(genesis): %v", v)}, &stepMeta{}, 0)
 		return out
